@@ -98,10 +98,10 @@ def handle (case impl : List String) : Verdict :=
       let v := v.withSpec (r1.head? != some "ok" || r2.head? != some "ok") "valid-image-rejected" s!"text: {r1.headD ""}, binary: {r2.headD ""}"
       v.withSpec (r1 != r2) "text-binary-differ" "text and binary encodings of the same image decode differently"
     | _, _ => bad "hex"
-  | "write" :: rest | "writeb" :: rest =>
+  | "write" :: rest | "writem" :: rest | "writeb" :: rest =>
     let parsed : Option (Nat × Nat × Nat × Nat × Nat × Nat × Nat × Nat × List UInt8) :=
       match case with
-      | ["write", w, h, s, n, l, t, r, b, px] =>
+      | [_, w, h, s, n, l, t, r, b, px] =>
         match [w, h, s, n, l, t, r, b].map String.toNat?, parseHexBytes? px with
         | [some w, some h, some s, some n, some l, some t, some r, some b], some px => some (w, h, s, n, l, t, r, b, px)
         | _, _ => none
